@@ -12,7 +12,7 @@ export GOFLAGS=-mod=mod GOPROXY=off GOSUMDB=off GOTOOLCHAIN=local GOWORK=off
 echo "== demo on the unchanged tree (must pass)"
 ( cd "$D/demo" && timeout 600 bash ./run.sh "$WT" ) >"$WT.clean.log" 2>&1; rc_clean=$?
 git -C "$WT" checkout -q -- . ; git -C "$WT" clean -fdq
-git -C "$WT" apply "$D/patch.diff" || { echo "PATCH DOES NOT APPLY"; exit 1; }
+P="$D/patch.diff"; [ -f "$D/patch.rebased.diff" ] && P="$D/patch.rebased.diff"; git -C "$WT" apply "$P" || { echo "PATCH DOES NOT APPLY"; exit 1; }
 echo "== build"
 for m in hermes src/hermes2go src/calcHermesBatch src/cropfileconverter; do (cd "$WT/$m" && go build ./... ) || { echo "BUILD FAILED in $m"; exit 1; }; done
 echo "== pinned suite with the change"
